@@ -47,8 +47,8 @@ DEFAULT_OPS = {
     "rename_columns": 1,
     "map_columns": 1,
     "order_rows": 2,
-    "natural_join": 3,
-    "concat_rows": 1,
+    "natural_join": 4,
+    "concat_rows": 1.5,
     "convert_records": 1,
 }
 
@@ -66,7 +66,8 @@ class G:
         return self.draw(st.sampled_from(list(xs)))
 
     def boolean(self, p=0.5):
-        return self.draw(st.floats(0, 1)) < p if p != 0.5 else self.draw(st.booleans())
+        # sampled_from is (near) uniform; st.floats(0, 1) is heavily biased towards 0 and 1
+        return self.draw(st.sampled_from(range(20))) < p * 20 if p != 0.5 else self.draw(st.booleans())
 
     def int(self, lo, hi):
         return self.draw(st.integers(lo, hi))
@@ -80,14 +81,10 @@ class G:
 
     def weighted(self, weights: Dict[str, float]):
         items = [(k, w) for k, w in weights.items() if w > 0]
-        total = sum(w for _, w in items)
-        x = self.draw(st.floats(0, 1, exclude_max=True)) * total
-        acc = 0.0
+        slots = []
         for k, w in items:
-            acc += w
-            if x < acc:
-                return k
-        return items[-1][0]
+            slots.extend([k] * max(1, int(round(w * 2))))
+        return self.draw(st.sampled_from(slots))
 
 
 # ----------------------------------------------------------------------------------------------
@@ -405,8 +402,10 @@ def step_window(g: G, sch: Sch):
     return {"op": "extend", "ops": ops, "partition_by": pb if pb else 1}
 
 
-def _total_order_cols(g: G, sch: Sch, avoid=()):
-    """Column list giving a total order (contains a key, all non-null)."""
+def _total_order_cols(g: G, sch: Sch, avoid=(), strict=False):
+    """Column list giving a total order (contains a key, all non-null). Non-strict callers (order_rows with
+    limit) also accept "all columns": ties are then identical rows. Window functions need strict=True: SQL's
+    default RANGE frame gives peers the same value, Pandas does not."""
     nn = [c for c in sch.names() if not sch.cols[c]["null"] and not sch.cols[c]["zn"] and c not in avoid]
     keys = [k for k in sch.keys if k <= set(nn)]
     if keys:
@@ -416,14 +415,14 @@ def _total_order_cols(g: G, sch: Sch, avoid=()):
         if g.boolean(0.3):
             cols = g.draw(st.permutations(cols))
         return list(cols)
-    if set(nn) == set(sch.names()) and not avoid and len(nn) <= 6:
+    if (not strict) and set(nn) == set(sch.names()) and not avoid and len(nn) <= 6:
         return list(g.draw(st.permutations(nn)))
     return None
 
 
 def step_ordered_window(g: G, sch: Sch):
     pb = _group_keys(g, sch, lo=0, hi=1)
-    ob = _total_order_cols(g, sch, avoid=set(pb))
+    ob = _total_order_cols(g, sch, avoid=set(pb), strict=True)
     if ob is None:
         return None
     # keys must be wholly inside order_by ∪ partition_by: ordering within a partition is then total
@@ -602,6 +601,8 @@ def step_join(g: G, schemas: Dict[int, Sch], a: int, b: int):
         if flag in closed:
             jts = [j for j in jts if j != jt]
     jt = g.pick(jts)
+    if jt == "full" and "null_full_join_key" in closed:
+        closed = closed | {"null_join_key"}
     on = []
     if jt != "cross":
         same = [c for c in common if keyable(sa, c) and keyable(sb, c)]
@@ -695,54 +696,54 @@ UNARY_STEPS = {
 }
 
 
-def draw_program(draw, cfg=None):
-    cfg = dict(cfg or {})
-    g = G(draw, cfg)
-    weights = dict(DEFAULT_OPS)
-    weights.update(cfg.get("ops", {}))
-    lo, hi = cfg.get("n_tables", (1, 2))
-    nt = g.int(lo, hi)
-    tables = {}
-    tnames = ["t1", "t2", "t3"][:nt]
-    for tn in tnames:
-        tables[tn] = gen_table(g, tn, force_cols=cfg.get("force_cols"))
-    case = {"tables": tables, "nodes": [], "root": 0, "expr_mode": "text"}
-    schemas: Dict[int, Sch] = {}
+class Builder:
+    """Grows a case node by node, tracking schemas."""
 
-    def add(nd):
-        case["nodes"].append(nd)
-        i = len(case["nodes"]) - 1
-        schemas[i] = S.out_schema(nd, schemas, case)
+    def __init__(self, g: G, cfg):
+        self.g = g
+        self.cfg = cfg
+        self.weights = dict(DEFAULT_OPS)
+        self.weights.update(cfg.get("ops", {}))
+        lo, hi = cfg.get("n_tables", (1, 2))
+        nt = g.int(lo, hi)
+        tables = {}
+        self.tnames = ["t1", "t2", "t3"][:nt]
+        for tn in self.tnames:
+            tables[tn] = gen_table(g, tn, force_cols=cfg.get("force_cols"))
+        self.case = {"tables": tables, "nodes": [], "root": 0, "expr_mode": "text"}
+        self.schemas: Dict[int, Sch] = {}
+        self.heads = [self.add({"op": "table", "name": tn}) for tn in self.tnames]
+
+    def add(self, nd):
+        self.case["nodes"].append(nd)
+        i = len(self.case["nodes"]) - 1
+        try:
+            self.schemas[i] = S.out_schema(nd, self.schemas, self.case)
+        except (S.TypeErr, KeyError):
+            self.case["nodes"].pop()
+            return None
         return i
 
-    heads = []  # node ids that are current branch tips
-    for tn in tnames:
-        heads.append(add({"op": "table", "name": tn}))
-    max_nodes = cfg.get("max_nodes", 7)
-    nsteps = g.int(cfg.get("min_steps", 1), max_nodes)
-    cur = heads[0]
-    done = 0
-    for _attempt in range(nsteps * 3):
-        if done >= nsteps:
-            break
-        kind = g.weighted(weights)
+    def step(self, cur: int, kind: str, other: Optional[int] = None):
+        """Try to add one node of `kind` on top of `cur`; returns the new node id or None."""
+        g, cfg, schemas, case = self.g, self.cfg, self.schemas, self.case
         nd = None
         if kind in ("natural_join", "concat_rows"):
-            # other side: another table, another branch tip, or an earlier node of this branch (DAG reuse)
-            others = [i for i in schemas if i != cur]
-            if not others:
-                continue
-            other = g.pick(others)
+            if other is None:
+                others = [i for i in schemas if i != cur]
+                if not others:
+                    return None
+                if cfg.get("reuse_bias"):
+                    computed = [i for i in others if case["nodes"][i]["op"] != "table"]
+                    if computed and g.boolean(0.7):
+                        others = computed
+                other = g.pick(others)
             if kind == "natural_join":
-                if g.boolean():
-                    nd = step_join(g, schemas, cur, other)
-                else:
-                    nd = step_join(g, schemas, other, cur)
+                nd = step_join(g, schemas, cur, other) if g.boolean() else step_join(g, schemas, other, cur)
             else:
                 nd = step_concat(g, schemas, cur, other)
-                if nd is None:
-                    # make a schema-equal branch: concat with a filtered/extended copy of an ancestor
-                    nd = step_concat(g, schemas, cur, cur) if g.boolean(0.5) else None
+                if nd is None and g.boolean(0.5):
+                    nd = step_concat(g, schemas, cur, cur)
         elif kind == "order_rows":
             nd = step_order_rows(g, schemas[cur])
             if nd is not None:
@@ -752,28 +753,69 @@ def draw_program(draw, cfg=None):
             if nd is not None:
                 nd["src"] = cur
         if nd is None:
-            continue
-        try:
-            cur = add(nd)
+            return None
+        return self.add(nd)
+
+    def grow(self, cur: int, nsteps: int, weights=None, wander=0.15):
+        g = self.g
+        weights = weights or self.weights
+        done = 0
+        for _attempt in range(nsteps * 4 + 2):
+            if done >= nsteps:
+                break
+            new = self.step(cur, g.weighted(weights))
+            if new is None:
+                continue
+            cur = new
             done += 1
-        except (S.TypeErr, KeyError):
-            case["nodes"].pop()
-            continue
-        # occasionally continue from a different tip so that branches of different shapes meet in joins
-        if g.boolean(0.15):
-            cur = g.pick(list(schemas.keys()))
-    if g.draw(st.floats(0, 1)) < cfg.get("final_order", 0.35):
-        nd = step_order_rows(g, schemas[cur], final=True)
-        if nd is not None:
-            nd["src"] = cur
-            cur = add(nd)
-    case["root"] = cur
-    mode = cfg.get("expr_mode", "mixed")
-    if mode == "mixed":
-        mode = "text" if g.boolean(0.7) else "object"
-    case["expr_mode"] = mode
-    case["excluded_by_construction"] = g.excluded
-    return case
+            if wander and g.boolean(wander):
+                cur = g.pick(list(self.schemas.keys()))
+        return cur
+
+    def finish(self, cur: int):
+        g, cfg = self.g, self.cfg
+        if g.boolean(cfg.get("final_order", 0.35)):
+            nd = step_order_rows(g, self.schemas[cur], final=True)
+            if nd is not None:
+                nd["src"] = cur
+                new = self.add(nd)
+                if new is not None:
+                    cur = new
+        self.case["root"] = cur
+        mode = cfg.get("expr_mode", "mixed")
+        if mode == "mixed":
+            mode = "text" if g.boolean(0.7) else "object"
+        self.case["expr_mode"] = mode
+        self.case["excluded_by_construction"] = g.excluded
+        return self.case
+
+
+def draw_program(draw, cfg=None):
+    cfg = dict(cfg or {})
+    g = G(draw, cfg)
+    b = Builder(g, cfg)
+    max_nodes = cfg.get("max_nodes", 7)
+    lo_steps = cfg.get("min_steps", 1)
+    nsteps = g.pick([n for n in (1, 2, 2, 3, 3, 4, 4, 5, 5, 6, 7, 8) if lo_steps <= n <= max_nodes] or [lo_steps])
+    shape = cfg.get("shape")
+    if shape == "diamond" and g.boolean(0.8):
+        # prefix P, two consumers A and B of P, combined by join/concat, then a chain of extends
+        row_preserving = {"extend": 5, "window": 2, "ordered_window": 2, "select_rows": 2, "rename_columns": 1}
+        p = b.grow(b.heads[0], g.pick([1, 1, 2, 3]), wander=0)
+        a = b.grow(p, g.pick([0, 1, 1, 2]), weights={"extend": 5, "select_rows": 3, "window": 2, "ordered_window": 1}, wander=0)
+        c = b.grow(p, g.pick([0, 1, 1, 2]), weights={"extend": 5, "select_rows": 3, "window": 2, "project": 1}, wander=0)
+        cur = None
+        for _ in range(4):
+            kind = g.pick(["natural_join", "natural_join", "concat_rows"])
+            cur = b.step(a, kind, other=c)
+            if cur is not None:
+                break
+        if cur is None:
+            cur = a
+        cur = b.grow(cur, g.pick([1, 2, 2, 3]), weights={"extend": 8, "window": 2, "select_rows": 1, "drop_columns": 1, "select_columns": 1}, wander=0)
+        return b.finish(cur)
+    cur = b.grow(b.heads[0], nsteps)
+    return b.finish(cur)
 
 
 def programs(cfg=None):
